@@ -177,7 +177,7 @@ def c20(prop, tier, verdict):
         return 'pool:%s:next=%s:muts=%s:%s' % (c.get('kind'), c.get('next'), '+'.join(c.get('muts') or []), 'escaped' if line.get('escaped') else 'differs')
     cov, _ = eng_data.run(prop, tier, verdict, 'Pool', {'MaxMut': '3' if tier == 'thorough' else '2'}, sig, 1000,
                           nontrivial=lambda c: len(c.get('muts') or []) > 0, seeds=2 if tier == 'thorough' else 1)
-    return 'exploration', cov, ['pooled kinds: socket.Message, utils.Args, pooled socket.Socket, xfer.XferPipe, handler contexts (through a live session)',
+    return 'exploration', cov, ['pooled kinds: socket.Message (also obtained through GetMessage with up to 3 settings, one of which may panic), utils.Args, pooled socket.Socket, xfer.XferPipe, handler contexts (through a live session)',
                                 'every sequence of at most 2 (quick) / 3 (thorough) mutators of the previous user, then one operation of the next user; recycling is made deterministic with GOMAXPROCS(1) and checked by pointer identity',
                                 'differential oracle: observation vector / packed bytes of the recycled object equal those of a fresh one']
 
